@@ -201,7 +201,7 @@ def run(ctx, prop):
                lenbook_histories=len(lbl),
                rule="messages = every state of spec/WireGen.tla (exhaustive over its shape classes, up to the configured number of AVPs) "
                     "+ seeded random trees over the verification dictionary + one message per AVP definition of the embedded dictionaries; "
-                    "non-trivial = at least two AVPs, or a grouped AVP, or a payload needing padding; distinct by (event, header flags, structural shape with value classes) Since extended: five ways of assembling a message (NewAVP, vendor AVPs without the V bit / Message.NewAVP, struct literals, Message.NewAVP by dictionary name, groups filled after an enclosing group was wrapped); codes of the base dictionary under unknown vendors; the library's pools are poisoned between ReadMessage and the inspection of its result; LenBook over ten operations with WriteTo equality.",
+                    "non-trivial = at least two AVPs, or a grouped AVP, or a payload needing padding; distinct by (event, header flags, structural shape with value classes) Since extended: five ways of assembling a message (NewAVP, vendor AVPs without the V bit / Message.NewAVP, struct literals, Message.NewAVP by dictionary name, groups filled after an enclosing group was wrapped); codes of the base dictionary under unknown vendors; the library's pools are poisoned between ReadMessage and the inspection of its result; LenBook over ten operations with WriteTo equality; grouped base AVPs inside groups; a second message read from the same reader; SerializeTo into an over-long buffer; bodies larger than the pooled buffers.",
                samples=samples, exhaustive=False,
                tlc_generator_states=g["distinct"], tlc_validator_processes=st["procs"], rejected_lines=len(bad),
                known_finding_hits={k: n for k, (n, _) in v.hits.items()})
